@@ -209,6 +209,21 @@ inline std::vector<Value> readNdjson(const std::string& path) {
   }
   return out;
 }
+// Same, but only the lines first .. first+count-1 (0-based, blank lines not counted) are parsed: the others are left as
+// null values, so that indices stay aligned (large case files shared by several worker processes)
+inline std::vector<Value> readNdjsonSlice(const std::string& path, long first, long count) {
+  std::ifstream f(path);
+  if (!f) throw std::runtime_error("cannot open " + path);
+  std::vector<Value> out; std::string line;
+  long idx = 0;
+  while (std::getline(f, line)) {
+    size_t k = line.find_first_not_of(" \t\r");
+    if (k == std::string::npos) continue;
+    if (idx >= first && idx < first + count) out.push_back(parse(line)); else out.push_back(Value());
+    idx++;
+  }
+  return out;
+}
 inline Value readFile(const std::string& path) {
   std::ifstream f(path);
   if (!f) throw std::runtime_error("cannot open " + path);
